@@ -261,7 +261,16 @@ func (engine *Engine) DialAsyncTimeout(network, addr string, timeout time.Durati
 		c.mux.Lock()
 		if !c.closed && c.onConnected != nil {
 			c.wTimer = engine.AfterFunc(timeout, func() {
-				_ = c.closeWithError(ErrDialTimeout)
+				// Only a dial that is still pending can time out: once the
+				// poller has taken the callback to report success, the
+				// connection is established and must not be closed (and
+				// notified as closed) before that callback has run.
+				c.mux.Lock()
+				pending := c.onConnected != nil
+				c.mux.Unlock()
+				if pending {
+					_ = c.closeWithError(ErrDialTimeout)
+				}
 			})
 		}
 		c.mux.Unlock()
